@@ -6,7 +6,7 @@ case = {"src":[c0,budget], "stations":[["H"|"P",c] | ["B",delay,K] ...], "sink":
 from simprocesd.model import System
 from simprocesd.model.factory_floor import Source, Sink, PartHandler, PartProcessor, Buffer
 
-from vlib.runner import Violation, Inconclusive
+from vlib.runner import PROGRESS, Violation, Inconclusive
 from vlib.weights import Weights, installed
 
 INF = float('inf')
@@ -80,6 +80,7 @@ def run_real(case):
         def step():
             before = env.now
             orig()
+            PROGRESS[0] += 1
             st['n'] += 1
             st['zero'] = st['zero'] + 1 if env.now == before else 0
             if st['zero'] > 50000:
